@@ -347,3 +347,46 @@ func TestD13_RedefineDuplicateName(t *testing.T) {
 		}
 	}
 }
+
+// D14 (C03, C05): a named parameter with an exactly matching supplied value is
+// nevertheless produced by conversion, because the same-name discount makes the
+// chain a:T0/t -> a:T0 -> conv -> a:T5 cheaper than the direct input.
+func TestD14_ExactInputLosesToSameNameChain(t *testing.T) {
+	convRan := 0
+	conv := func(in struct {
+		argmapper.Struct
+		A T0
+	}) struct {
+		argmapper.Struct
+		A T4
+	} {
+		convRan++
+		return struct {
+			argmapper.Struct
+			A T4
+		}{A: T4{K: 1000 + in.A.K}}
+	}
+	var got int
+	target := argmapper.MustFunc(argmapper.NewFunc(func(in struct {
+		argmapper.Struct
+		A T4
+	}) {
+		got = in.A.K
+	}))
+	for i := 0; i < 200; i++ {
+		convRan, got = 0, 0
+		res, p := call(target,
+			argmapper.Named("a", T4{K: 7}),            // exactly what the target asks for
+			argmapper.NamedSubtype("a", T0{K: 1}, "t"), // a same-named value of another type
+			argmapper.Converter(conv))
+		if p != nil {
+			t.Fatalf("panic: %v", p)
+		}
+		if res.Err() != nil {
+			t.Fatalf("iteration %d: %v", i, res.Err())
+		}
+		if convRan != 0 || got != 7 {
+			t.Fatalf("iteration %d: converter executed %d time(s), target received K=%d; want the supplied a=T4{7} without conversion", i, convRan, got)
+		}
+	}
+}
